@@ -337,7 +337,8 @@ class Stagger(Part):
     name = "stagger"
     family = "cluster19"
     exec_module = "StaggerExec"
-    branch_names = {1: "activation_by_a_member_not_yet_told", 2: "activation_by_a_member_already_told", 3: "several_agents_told_at_once"}
+    branch_names = {1: "activation_by_a_member_not_yet_told", 2: "activation_by_a_member_already_told", 3: "several_agents_told_at_once",
+                    4: "activation_by_the_joiner", 5: "asked_member_refuses_a_known_id"}
 
     def generate(self, rng, tier):
         cases = []
@@ -362,6 +363,27 @@ class Stagger(Part):
                                 cases.append({"input": c, "class": "join_spreads_m%d" % m})
         if tier == "quick":
             cases = cases[::2] if len(cases) > 120 else cases
+        # the joiner itself activates - an id that is new, and one that every old member already resolves - at every
+        # stage of the spreading (D26: before the repair the asked member granted a second actor under a known id)
+        for m in (2, 3):
+            olds = list(range(m))
+            for first in ([m], [m, 0], [0, m], olds + [m]):
+                for known in (False, True):
+                    for sel in range(m):
+                        for lazy in (False, True):
+                            ops = [["join", i] for i in olds]
+                            if known:
+                                ops.append(["activate", 0, 0, "1", (sel + 1) % m])
+                            ops.append(["join_to", m, first])
+                            ops.append(["activate", m, 0, "1", sel])
+                            rest = [r for r in olds if r not in first]
+                            if rest:
+                                ops.append(["join_to", m, rest])
+                            ops.append(["activate", 0, 0, "2", 0])
+                            c = {"kinds": [[0] for _ in olds] + [[1]], "ops": ops}
+                            if lazy:
+                                c["lazy"] = True
+                            cases.append({"input": c, "class": "joiner_activates_%s_id" % ("known" if known else "new")})
         return cases
 
     def to_coq(self, inp, obs):
